@@ -484,3 +484,26 @@ def check(ctx):
     check_duck(ctx)
     check_lookup(ctx, tool)
     check_target(ctx, tool, ev)
+    # C19.STATELESS: a verdict depends on the files of this call only
+    from ..modstate import state_uses
+    region = {q: f for q, f in prog.region(tool).items()
+              if f.module.name in (SHELL, PKG + '._cache_handler')}
+    uses = state_uses(prog, region)
+    for f, node, name, how in uses:
+        ctx.ob('C19.STATELESS', False, ctx.where(f.module, node), f.qual,
+               '%s module-level `%s`' % (how, name),
+               'the checker %s the module-level object `%s`: what one run '
+               'read (policy, token or target file) can be served to a '
+               'later run in the same process' % (how, name))
+    cached = [c for f in region.values() for c in walk_no_nested(f.node)
+              if isinstance(c, ast.Call) and (prog.resolve(
+                  f.module, c.func) or '').endswith('read_cached_file')]
+    for c in cached:
+        ctx.ob('C19.STATELESS', False, 'oslo_policy/shell.py:%d' % c.lineno,
+               SHELL, U(c)[:60], 'the checker reads its input files through '
+               'the mtime-keyed file cache: a file replaced by an older '
+               'copy is answered from stale contents')
+    if not uses and not cached:
+        ctx.ob('C19.STATELESS', True, ctx.where(tool.module, tool.node),
+               tool.qual, 'module-level state / file cache in the tool',
+               'none: every run reads its files afresh')
